@@ -478,6 +478,8 @@ def run(cx):
     from checks import c11range, c11meta
     c11range.run_range(cx, model_first, PRED)
     c11meta.run_meta(cx)
+    from checks import c11aug
+    c11aug.run_aug(cx)
 
 
 def replay(cx, payload):
